@@ -46,7 +46,12 @@ func (x *vc) contractEnv(fr *frame, st *state, hdr *ssa.BasicBlock) *cenv {
 	}
 	for _, fv := range fr.fn.FreeVars {
 		if v, ok := fr.vals[fv]; ok {
-			env.vars[fv.Name()] = v
+			// captured variables are held by address; in contracts the source name means the variable's value
+			if _, isPtr := fv.Type().Underlying().(*types.Pointer); isPtr && v.T != "" {
+				env.vars[fv.Name()] = x.load(st, v)
+			} else {
+				env.vars[fv.Name()] = v
+			}
 		}
 	}
 	// "self": the function itself as a value (function-type contracts relate it to dispatch tables)
@@ -99,6 +104,19 @@ func (x *vc) resolveLocal(env *cenv, name string) (Val, bool) {
 		return fr.fn.Blocks[0]
 	}
 	isZeroConst := func(d *namedDef) bool { _, ok := d.v.(*ssa.Const); return ok }
+	// a variable that lives in memory (address taken, captured by a closure): its value is what the cell holds now,
+	// not the value some earlier statement stored into it
+	for _, b := range fr.fn.Blocks {
+		for _, in := range b.Instrs {
+			al, ok := in.(*ssa.Alloc)
+			if !ok || al.Comment != name {
+				continue
+			}
+			if v, computed := fr.vals[al]; computed && v.T != "" && (env.hdr == nil || b.Dominates(env.hdr)) {
+				return x.load(env.st, v), true
+			}
+		}
+	}
 	for i := range defs {
 		d := &defs[i]
 		if _, isParam := d.v.(*ssa.Parameter); isParam && env.skipParams {
@@ -281,6 +299,18 @@ func (x *vc) eval(env *cenv, e *cexpr) Val {
 		body := x.evalBool(&sub, e.args[2])
 		rng := and(app("<=", lo, bv), app("<", bv, hi))
 		if e.op == "forall" {
+			// forall a: forall b: P  is emitted as one quantifier over (a, b): nested quantifiers are only instantiated
+			// outside-in, which E-matching rarely manages when the triggers mention both variables
+			const pfx = "(forall ("
+			if strings.HasPrefix(body, pfx) {
+				if k := strings.Index(body, ")) (=> "); k > 0 && !strings.Contains(body[:k], ":pattern") {
+					inner := body[len(pfx) : k+1] // "(q Int) (r Int)"
+					rest := body[k+3 : len(body)-1] // "(=> rng body)"
+					if strings.HasPrefix(rest, "(=> ") {
+						return Val{T: fmt.Sprintf("(forall ((%s Int) %s) (=> %s %s)", bv, inner, rng, rest[4:]), Typ: boolT}
+					}
+				}
+			}
 			return Val{T: fmt.Sprintf("(forall ((%s Int)) %s)", bv, implies(rng, body)), Typ: boolT}
 		}
 		return Val{T: fmt.Sprintf("(exists ((%s Int)) %s)", bv, and(rng, body)), Typ: boolT}
@@ -652,6 +682,27 @@ func (x *vc) evalCall(env *cenv, e *cexpr) Val {
 			return Val{T: "true", Typ: boolT}
 		}
 		return Val{T: app(">=", ref, env.old.nextRef), Typ: boolT}
+	case "alloc": // alloc(p): p is nil or an object that exists in the current state (allocated before now)
+		v := x.eval(env, e.args[0])
+		ref := v.T
+		if x.srt.sortOf(v.Typ) == sSlice {
+			ref = app("sl_arr", v.T)
+		}
+		if env.st.nextRef == "" {
+			return Val{T: "true", Typ: boolT}
+		}
+		return Val{T: app("<", ref, env.st.nextRef), Typ: boolT}
+	case "local": // local(p): p is an object of a non-escaping allocation site of this activation (no callee can reach it)
+		if env.hdr == nil {
+			x.cfail("local(x) may only be used in loop invariants (where it is proved before it is assumed)")
+		}
+		v := x.eval(env, e.args[0])
+		ref := v.T
+		if x.srt.sortOf(v.Typ) == sSlice {
+			ref = app("sl_arr", v.T)
+		}
+		x.needLocalobj()
+		return Val{T: app("localobj", ref), Typ: boolT}
 	case "kind", "valid", "rvlen", "elemof", "isnil", "canif", "canaddr", "canset", "fval", "sval", "bval", "res", "rvtype":
 		// observers of the reflect.Value model
 		v := x.eval(env, e.args[0])
